@@ -315,6 +315,9 @@ def _linkkind(ck: Checker) -> None:
     from . import round7 as _r7
 
     _r7.state_hit_full_meta(ck, "C10.linkkind")
+    from . import round9 as _r9
+
+    _r9.keep_copy_only_for_same_object(ck, "C10.reprotect")
     # ... and that metadata is the one stat'ed from the workspace file (change.old), not the target entry's
     n_call = 0
     for caller in fn.module.funcs.values():
